@@ -38,11 +38,15 @@ type Thread struct {
 	// It is an interface over small structs with //go:norace methods, never a closure: closures are
 	// instrumented by the race detector even inside //go:norace functions, and a predicate is
 	// evaluated by whichever thread happens to run the scheduler.
-	can   Waiter
-	what  string // description of the pending operation (for deadlock reports)
-	pc    uint64 // hash of the call stack at the pending operation (stateful exploration: the thread's continuation)
-	steps int
-	Panic string // recovered panic of the thread body, if any
+	can  Waiter
+	what string // description of the pending operation (for deadlock reports)
+	pc   uint64 // hash of the call stack at the pending operation (stateful exploration: the thread's continuation)
+	// lastNow is the value of the virtual clock this thread read last (time.Now/Since): code that reads
+	// the clock and then waits for a lock holds that value in a local while other threads move the clock
+	lastNow    int64
+	hasLastNow bool
+	steps      int
+	Panic      string // recovered panic of the thread body, if any
 }
 
 // Point is one recorded choice.
@@ -425,7 +429,7 @@ func (x *Exec) stateKey() string {
 	var sb strings.Builder
 	// live threads in creation order (finished ones, and with them the ids, do not matter: a timer
 	// callback that has run and gone leaves the same state behind whichever id it had)
-	live := 0
+	var th []string
 	for i := 0; i < x.nthr; i++ {
 		t := &x.threads[i]
 		if t.status != 1 {
@@ -435,15 +439,43 @@ func (x *Exec) stateKey() string {
 		if i == x.cur {
 			mark = "*"
 		}
-		fmt.Fprintf(&sb, "%s%s@%x/%t;", mark, t.what, t.pc, t.can == nil || t.can.Ready())
-		live++
+		age := ""
+		if ClockReadCap > 0 && t.hasLastNow {
+			a := x.clock - t.lastNow
+			if a > ClockReadCap {
+				a = ClockReadCap
+			}
+			age = fmt.Sprintf("~%d", a)
+		}
+		th = append(th, fmt.Sprintf("%s%s@%x/%t%s;", mark, t.what, t.pc, t.can == nil || t.can.Ready(), age))
 	}
+	sort.Strings(th) // slots are reused: the order of the live threads carries no information
+	sb.WriteString(strings.Join(th, ""))
 	sb.WriteString("|timers:")
 	var ts []string
 	for i := 0; i < x.ntimer; i++ {
 		tm := &x.timers[i]
-		if tm.active {
-			ts = append(ts, fmt.Sprintf("%s+%d/%d", tm.name, tm.when-x.clock, tm.period))
+		if tm.active || (tm.ch != nil && len(tm.ch.buf) > 0) {
+			d := fmt.Sprintf("%s+%d/%d", tm.name, tm.when-x.clock, tm.period)
+			if !tm.active {
+				d = tm.name + "(fired)"
+			}
+			if tm.ch != nil {
+				// ticks delivered and not received yet: the receiver may be anywhere (the channel is
+				// in its locals), so the occupancy is part of the timer's description
+				for _, v := range tm.ch.buf {
+					if ClockReadCap <= 0 {
+						d += "[tick]"
+						continue
+					}
+					a := x.clock - v.Sub(Epoch).Nanoseconds()
+					if a > ClockReadCap {
+						a = ClockReadCap
+					}
+					d += fmt.Sprintf("[-%d]", a)
+				}
+			}
+			ts = append(ts, d)
 		}
 	}
 	sort.Strings(ts)
@@ -740,6 +772,16 @@ func ThreadParked(id int) bool {
 	return t.status == 1 && t.can != nil && !t.can.Ready()
 }
 
+// ForgetClockRead drops the calling thread's last reading of the clock from the state key: a harness
+// calls it between two operations, when every local that held the reading is dead.
+//
+//go:norace
+func ForgetClockRead() {
+	if x := X; x != nil && !x.aborting {
+		x.threads[x.cur].hasLastNow = false
+	}
+}
+
 // LiveThreads is the number of threads that have not finished.
 //
 //go:norace
@@ -789,3 +831,13 @@ func WaitLiveAtMost(n int) {
 	}
 	Wait("WaitLiveAtMost", &liveAtMost{x, n})
 }
+
+// Stateful reports whether the running execution is part of a stateful exploration.
+//
+//go:norace
+func Stateful() bool { x := X; return x != nil && x.Visited != nil }
+
+// ClockReadCap, when positive, makes the age of every live thread's last reading of the clock part of
+// the state key of a stateful exploration (capped at this many nanoseconds): the commonest value that
+// code holds in a local across a scheduling point is "now".
+var ClockReadCap int64
